@@ -222,3 +222,14 @@ write("C03", c03, ["the sequential reference is computed by the same harness on 
                    "code between two synchronisation operations runs atomically in the engine; data-race freedom itself is NOT decided here (no happens-before detector in the engine) - that half of the statement is outside this check",
                    "stubs: sync.Mutex as an engine object (every Lock is a schedule point), zap, uuid, time.Now"],
       ["more than one login or more than two sessions in flight", "weak-memory effects", "the 'no data race' clause (needs the race detector, i.e. a different technique)"], site_prefix="c03.")
+
+# ---- C07
+write("C07", [run("sshd-framing", SL, "VerifC07SyslogFraming", q({"M": 6}, ascii7=False, preempt=0), t({"M": 12}, preempt=0), reach=["c07.sshd.delivered"],
+                  bounds="'<pid 1..3 digits> <0..2 extra spaces><message 1..M bytes, any byte but newline, not starting with a space>\\\\n' through the real named-pipe and syslog ingesters"),
+              run("audit-line", AUD, "VerifC07AuditLine", {"params": {"T": 4}, "preempt": 0}, {"params": {"T": 8}, "preempt": 0}, reach=["c07.audit.parsed"],
+                  bounds="type in {LOGIN, CRED_DISP, USER_END}, two symbolic digits of seconds and of sequence, 3 millisecond digits, tail of T symbolic bytes; with and without the trailing newline"),
+              run("audit-empty-line", AUD, "VerifC07AuditEmptyLine", {"params": {}, "preempt": 0}, None, reach=["c07.audit.empty"], bounds="the empty line")],
+      ["sshd half is compositional: the ingester is shown to hand exactly (pid, message) to the processor; the processor is a function of that pair, so events and forwarded logins are those of the direct call (the processor is checked under C05/C06/C11/C17)",
+       "audit half runs go-libaudit's real ParseLogLine / Reassembler from their source; FIFO model as in C12; rsyslog's '%msg%\\\\n' framing is an assumption of the model"],
+      ["messages longer than M bytes", "the kernel FIFO and rsyslog themselves", "compound audit events (several records per event)"], site_prefix="c07.",
+      init_extra=["github.com/elastic/go-libaudit/v2/auparse", "github.com/elastic/go-libaudit/v2"])
